@@ -224,3 +224,78 @@ Section TwoEnds.
     change (hd g (g :: ns')) with g. rewrite Hs, Hg. reflexivity.
   Qed.
 End TwoEnds.
+
+(* ------------------------------------------------------------------ the chain checker *)
+(* soundness: what as_valid_path = true means *)
+Lemma as_chain_ok_nth : forall joined ns es, as_chain_ok joined ns es = true ->
+  S (length es) = length ns /\
+  forall i, (i < length es)%nat -> joined (nth i es 0%nat) (nth i ns 0%nat) (nth (S i) ns 0%nat) = true.
+Proof.
+  intros joined. induction ns as [| a ns IH]; intros es H; simpl in H; [discriminate |].
+  destruct ns as [| b r].
+  - destruct es; [| discriminate]. split; [reflexivity | intros i Hi; simpl in Hi; lia].
+  - destruct es as [| e es']; [discriminate |].
+    apply andb_prop in H as [Hj Hc]. destruct (IH es' Hc) as [Hlen Hnth]. split; [simpl in *; lia |].
+    intros [| i] Hi; [exact Hj |]. simpl in Hi. apply (Hnth i). lia.
+Qed.
+
+Lemma as_valid_path_sound : forall joined start goal ns es,
+  as_valid_path joined start goal ns es = true ->
+  hd_error ns = Some goal /\ last ns goal = start /\ S (length es) = length ns /\ NoDup ns /\
+  forall i, (i < length es)%nat -> joined (nth i es 0%nat) (nth i ns 0%nat) (nth (S i) ns 0%nat) = true.
+Proof.
+  intros joined start goal ns es H. unfold as_valid_path in H.
+  destruct ns as [| g ns']; [discriminate |].
+  apply andb_prop in H as [H Hnd]. apply andb_prop in H as [H Hch]. apply andb_prop in H as [Hg Hs].
+  apply Nat.eqb_eq in Hg, Hs. subst g. destruct (as_chain_ok_nth _ _ _ Hch) as [Hlen Hnth].
+  repeat split; auto. now apply as_nodup_NoDup.
+Qed.
+
+Lemma NoDup_as_nodup : forall l, NoDup l -> as_nodup l = true.
+Proof.
+  induction l as [| x l IH]; intros H; simpl; [reflexivity |].
+  inversion H as [| ? ? Hnin Hnd]; subst. rewrite IH by assumption. rewrite andb_true_r.
+  apply negb_true_iff. destruct (existsb (Nat.eqb x) l) eqn:E; [| reflexivity].
+  apply existsb_exists in E as (y & Hy & Hxy). apply Nat.eqb_eq in Hxy. subst. contradiction.
+Qed.
+
+(* ------------------------------------------------------------------ the two flux conventions *)
+Lemma fs_flux_ujk_gprod : forall u p, fs_flux_ujk u p = fs_gprod (fun x d => - x * d) u p.
+Proof. reflexivity. Qed.
+Lemma fs_flux_bonds_gprod : forall u p,
+  fs_flux_bonds u p = fs_sign_real (length p) * fs_gprod (fun x d => x * d) u p.
+Proof. reflexivity. Qed.
+Lemma fs_odd_ujk : forall x d : Z, - - x * d = - (- x * d). Proof. intros. ring. Qed.
+Lemma fs_odd_bonds : forall x d : Z, - x * d = - (x * d). Proof. intros. ring. Qed.
+
+Lemma fs_path_flip_two_ends_ujk :
+  forall (P : list fs_plaq) (ep : list (option nat * option nat)),
+    (forall e q, (e < length ep)%nat -> (q < length P)%nat -> fs_count_edge (nth q P []) e = fs_sides ep e q) ->
+    forall start goal ns es u q,
+      as_valid_path (as_joined ep) start goal ns es = true -> (q < length P)%nat -> start <> goal ->
+      fs_flux_ujk (fs_neg_set es u) (nth q P [])
+      = (if (q =? start)%nat || (q =? goal)%nat then - fs_flux_ujk u (nth q P []) else fs_flux_ujk u (nth q P [])).
+Proof.
+  intros P ep Hwf start goal ns es u q Hv Hq Hsg. rewrite !fs_flux_ujk_gprod.
+  rewrite (fs_path_flip_two_ends _ fs_odd_ujk P ep Hwf start goal ns es u q Hv Hq).
+  unfold fs_flux_ujk, fs_gprod.
+  destruct (Nat.eqb_spec q start) as [H1 | H1]; destruct (Nat.eqb_spec q goal) as [H2 | H2].
+  - congruence.
+  - subst q. rewrite Nat.eqb_refl. destruct (Nat.eqb_spec goal start); [congruence |].
+    change (fs_sgn (fs_b2n false + fs_b2n true)) with (-1). cbv [orb]. ring.
+  - subst q. rewrite Nat.eqb_refl. destruct (Nat.eqb_spec start goal); [congruence |].
+    change (fs_sgn (fs_b2n true + fs_b2n false)) with (-1). cbv [orb]. ring.
+  - destruct (Nat.eqb_spec goal q); [congruence |]. destruct (Nat.eqb_spec start q); [congruence |].
+    change (fs_sgn (fs_b2n false + fs_b2n false)) with 1. cbv [orb]. ring.
+Qed.
+
+Lemma fs_flip_example :
+  let P := [[(0%nat, 1%Z); (1%nat, 1%Z); (2%nat, 1%Z)]; [(2%nat, (-1)%Z); (3%nat, 1%Z); (4%nat, 1%Z)]] in
+  let ep := [(Some 0, None); (Some 0, None); (Some 0, Some 1); (Some 1, None); (Some 1, None)]%nat in
+  (forall e q, (e < length ep)%nat -> (q < length P)%nat -> fs_count_edge (nth q P []) e = fs_sides ep e q) /\
+  as_valid_path (as_joined ep) 0 1 [1; 0]%nat [2]%nat = true.
+Proof.
+  split; [| reflexivity].
+  intros e q He Hq. simpl in He, Hq.
+  destruct q as [| [| q]]; [| | lia]; destruct e as [| [| [| [| [| e]]]]]; try lia; reflexivity.
+Qed.
